@@ -31,6 +31,10 @@ CLAIMED = {
    text="Over an abstract reflect (signature facts uninterpreted; Value.Call panics unless the arguments are assignable, else counts one invocation in a ghost counter): _args/_args_ctx panic iff the lisp argument count is outside the window and otherwise build exactly the boxed arguments in order (context first); each of the six wrapper closures never panics, invokes the Go function exactly once iff the count is in the window and reflect accepts the arguments, and otherwise returns a non-nil error; results are mapped by _nil_nil/_nil_error/_result_error as the convention says; at the registration site the accepted window is proved equal to the declared pair or the signature-derived bounds counted in lisp arguments; registration itself can only panic through its explicit validation panics.",
    note="reflect, runtime.FuncForPC().Name() ('pkgpath.func' contains a dot) and fmt/strings calls are stubs; the hyphenated lower-case name derivation and the %w wrapping of a recovered error payload inside fmt.Errorf are not verified; that a wrapper passes _args' result unchanged to Value.Call is visible in the one-line closure bodies, not a separate obligation; nil arguments boxed as the zero MalType is proved only as 'non-nil arguments are boxed by ValueOf'.",
    tech=TECH + "; panics-iff contracts, ghost invocation counter, assert-at obligations at the registration site, panic/recover paths modelled for the deferred _recover"),
+ "C09": dict(level="other", ref="DESIGN.md §4 C09",
+   text="Partial (the verifier has no interleaving semantics): over a ghost lockset it is proved, for every function of lib/concurrent, that every read of Atom.Val holds Atom.Mutex and every write holds it in write mode, that every path releases what it locked, that no mutex is locked twice by one thread, and that reset!/deref/swap! have the stated sequential effect inside their critical section (reset! installs and returns its argument, deref returns the value, swap! installs and returns the result, an error leaves the lock released). lock/no-call-while-held (no lisp-running call while holding a lock taken by the function) fails for swap! and is a recorded known finding. 'As if one at a time, consistent with real time' follows from these per-thread obligations by the standard lock-atomicity argument, which is not mechanised.",
+   note="sync.RWMutex as ghost lockset; M-LOCK meta-argument; swap!'s 'failing update leaves the atom unchanged' relies on Apply not touching an atom whose write lock the caller holds; gensym/memoize are lisp source and outside the verifier; Atom.LispPrint's unlocked read is reported under C11.",
+   tech="contract-based deductive verification of the lock discipline over go/ssa VCs (ghost lockset; obligations lock/held-for-access, lock/balance, lock/no-self-deadlock, lock/no-call-while-held; sequential critical-section contracts), z3/cvc5; no interleaving semantics"),
 }
 
 NA_REASON_WIP = ("check under construction (the contract-based VC engine exists; this property's contracts are not wired yet): "
